@@ -7,7 +7,7 @@
 (* Output: one VERDICT line per record listing the contract clauses that   *)
 (* the observation violates, plus what the specification predicted.        *)
 (***************************************************************************)
-EXTENDS XcpNSOps, Json, IOUtils
+EXTENDS XcpNSOps, Json, IOUtils, Bitwise
 
 Rec == ndJsonDeserialize(IOEnv.TRACE)
 
@@ -30,7 +30,15 @@ Clauses(r) ==
       c08 == s.n => (\A e \in FS0(s) : IF e.k = "dir" THEN sameKind(e.p) ELSE unchanged(e.p)) /\ (Collides(s) => ex # 0)
       c13 == s.L => /\ (ex = 0 => (\A e \in av : e.k = "link" => e \in View(FS0(s))) /\ av = View(ExpectedFS(s)))
                     /\ ((~Rejected(s) /\ \E v \in Visits(s) : v.err /\ v.k = "none") => ex # 0)
-      c14 == (~Rejected(s) /\ \E v \in Visits(s) : v.k = "blk") => ex # 0
+      modeAt(es, p) == LET S == { es[i].m : i \in { j \in 1..Len(es) : es[j].p = p } } IN IF S = {} THEN -1 ELSE CHOOSE m \in S : TRUE
+      nodeOk(v) ==           \* same type and device number, source permission bits limited by the umask
+        LET q == Resolve(ExpectedFS(s), v.to, FALSE)
+            sm == modeAt(r.before, Resolve(FS0(s), v.from, FALSE))
+        IN  /\ ~IsErr(q)
+            /\ [p |-> q, k |-> v.k, c |-> v.c] \in av
+            /\ sm >= 0 /\ modeAt(r.after, q) = sm - (sm & r.umask)
+      c14 == /\ (~Rejected(s) /\ \E v \in Visits(s) : v.k = "blk") => ex # 0
+             /\ (ex = 0 /\ ~Rejected(s)) => \A v \in Visits(s) : (Special(v.k) /\ ~v.err) => nodeOk(v)
       c16 == Rejected(s) => ex # 0 /\ ObsFull(r.before) = ObsFull(r.after)
   IN  (IF c02 THEN {} ELSE {"C02"}) \cup (IF c03 THEN {} ELSE {"C03"}) \cup (IF c08 THEN {} ELSE {"C08"})
       \cup (IF c13 THEN {} ELSE {"C13"}) \cup (IF c14 THEN {} ELSE {"C14"}) \cup (IF c16 THEN {} ELSE {"C16"})
